@@ -329,7 +329,7 @@ class CallMixin:
     def inline(self, p, fn, fnode, mod, args, kwargs, node, cls=None, closure=None):
         if len(p.frames) > MAX_DEPTH:
             raise Unsupported(f"call depth > {MAX_DEPTH} (recursion?) at {fn.fqn if fn else fnode.name}")
-        if _is_generator(fnode):
+        if _is_generator(fnode) and getattr(fn, "yield_spec", None) is None:
             return self.call_generator(p, fn, fnode, mod, args, kwargs, node, cls, closure)
         fr = Frame(fn, mod, cls)
         fr.closure = closure
